@@ -655,6 +655,30 @@ def mutate(x):
                 if got != want and len(bad) < 4:
                     bad.append({"base": sorted(base), "when": round_, "found": [(a, sorted(b)) for a, b in got] if isinstance(got, list) else got, "wire positions": [(a, sorted(b)) for a, b in want]})
         ctx.check(not bad, label, "iterate_fields_with_offsets for %d base sets x 3 rounds" % len(bases), "every field once, in order, at the set of bit positions at which it can start", "pydsdl/_serializable/_composite.py", bad[:3])
+    # a history: the first variant of a union is a composed type that a structure holds too; the union's length set is
+    # expanded numerically first (as `_offset_` inside the union, or a caller iterating it, does), then the structure is asked
+    first_t = comp([("m", u8), ("n", varr(u16, 2))])
+    holder = comp([("x", first_t[:3]), ("y", u8), ("z", varr(u8, 1))])
+    un2 = comp([("one", first_t[:3]), ("two", uint(64)), ("three", varr(u8, 3))], union=True)
+    bad = []
+    for round_ in ("before the union was expanded", "after the union's length set was expanded", "after it was expanded again"):
+        if not round_.startswith("before"):
+            try:
+                got_u = Folder({"u": un2[0]}, ctx.repo, prim.module, None, hook_for(prim)).fold(ast.parse("set(u.bit_length_set)", mode="eval").body)
+            except Raised as ex:
+                got_u = ("raised", ex.cls_name)
+            except Unfoldable as ex:
+                raise AnalysisError("the length set of a constructed union cannot be expanded: %s" % ex)
+            n += 1
+            if got_u != set(un2[1]):
+                bad.append({"when": round_, "the union's length set": sorted(got_u) if isinstance(got_u, (set, frozenset)) else got_u, "Specification": sorted(un2[1])})
+        for base in bases[:3]:
+            got = ask(holder[0], base, "fields")
+            want = positions(holder, base, False, 0)
+            n += 1
+            if got != want and len(bad) < 4:
+                bad.append({"base": sorted(base), "when": round_, "found": [(a, sorted(b)) for a, b in got] if isinstance(got, list) else got, "wire positions": [(a, sorted(b)) for a, b in want]})
+    ctx.check(not bad, "structure {First, uint8, uint8[<=1]} next to union {First, uint64, uint8[<=3]}", "offsets before and after the union's length set is expanded", "the offsets of a structure do not depend on which other length sets were expanded before", "pydsdl/_serializable/_composite.py", bad[:3])
     bad = []
     for base in bases:
         got = ask(arr, base, "elements")
